@@ -71,9 +71,14 @@ CHECKS = {
         text="Proof: (c03_causal) for every call tree hence every deser t v l: two scripts agreeing on the answers before call k give runs that are identical or agree up to and "
              "including call k; (c03_failfast_first) the first call made to the error type is the same under every script, so an always-stop error type is handed exactly the first "
              "report of the keep-going run. Monitor on the implementation: prefix equality with the keep-going run for every switch position k, and after the stop only hand-overs of the "
-             "built error (merge(_, previous result, _)) up to the returned error. The 'only hand-overs after the stop' clause is decided by the monitor + correspondence, not yet by a theorem.",
-        ref="5 C03", technique="Coq: generic causality theorem on call trees + answer-insensitivity invariant; relational in-Coq monitor over (keep-going, scripted) run pairs",
-        note="Trusted: as C01. Partial: the stop-next / pass-up clause has no theorem yet (monitor + full-trace correspondence only). No axioms."),
+             "built error (merge(_, previous result, _)) up to the returned error. (c03_stop_ends_the_work) for every type, payload and script whose answers are all Break from call k on: after the "
+             "first error-creating call at or after k, every later call is a hand-over merge whose `other` is the result of the call just before it (no value examined, no report, no user function) "
+             "and deserialize returns Err of the last result - the very predicate the monitor evaluates on the implementation (c03_tail_ok), proved by a static stop discipline on call trees "
+             "(Stops/Tail, sound for runs) and induction on types.",
+        ref="5 C03", technique="Coq: generic causality theorem on call trees + answer-insensitivity invariant + stop discipline (Stops/Tail) with soundness and induction on types; relational in-Coq "
+                               "monitor over (keep-going, scripted) run pairs",
+        note="Trusted: as C01. The stop theorem is for scripts that keep answering Break once they started (fail-fast and give-up-after-k error types); a parent that answers Continue to a hand-over "
+             "resumes its own loop, which is the documented behaviour. No axioms."),
     "C06": dict(
         text="Proof: arity theorems (array, 2- and 3-tuples: exactly one BadSequenceLen with the whole sequence and the expected length, any script/state), Option (None iff null, "
              "otherwise Some of the content's result), Box transparent, Vec (an Ok result has one output per payload element, in order, each the Ok result of its own element at its own "
@@ -98,7 +103,7 @@ CHECKS = {
              "failure handed to the error type once at the container's location; result flows into the output). Field-level from/try_from/map and field-level error types are decided by "
              "correspondence, the Spec.v monitor on the sequence of user-function invocations (mon_c11) and the linearity monitor.",
         ref="5 C11", technique="Coq run equations; in-Coq differential check with logging user functions + Spec.v monitor of the invocation sequence",
-        note="Trusted: as C01 + the harness's user-function library and its Gallina twin (ufail). Partial: field-level stages have no dedicated theorem. No axioms."),
+        note="Trusted: as C01 + the harness's user-function library and its Gallina twin (ufail). Field-level stages: under a keep-going error type the full sequence of invocations is the specified one by c02_refinement (trace_ucalls = s_ucalls); other scripts by correspondence. No axioms."),
     "C12": dict(
         text="Proof: every panic site of the code is an explicit RPanic outcome of the model (tuple slot unwraps, FieldState::unwrap, Vec->[T;N] conversion); c12_no_panic shows none is "
              "reachable for any target type, payload, script and state (invariants: empty accumulator => all slots filled / no FErr / no FMissing state / N outputs). Correspondence of the "
